@@ -347,8 +347,10 @@ pub fn kcore_decomposition(store: &LpgStore) -> KCoreResult {
         let v = *buckets[min_deg].iter().next().unwrap();
         buckets[min_deg].remove(&v);
         removed[v] = true;
-        core[v] = min_deg;
+        // The degrees of the remaining vertices may have dropped below the current level,
+        // but core numbers never decrease along the peeling order.
         max_core_val = max_core_val.max(min_deg);
+        core[v] = max_core_val;
 
         // Update degrees of neighbors
         for &u in &adj[v] {
